@@ -16,7 +16,8 @@ def V(vid, prop, rule, edits, contains=''):
     VARIANTS.append({
         'id': vid, 'prop': prop,
         'edits': [{'file': e[0], 'old': e[1], 'new': e[2],
-                   'count': e[3] if len(e) > 3 else 1} for e in edits],
+                   'count': e[3] if len(e) > 3 else 1,
+                   'nth': e[4] if len(e) > 4 else None} for e in edits],
         'expect': {'rule': rule, 'contains': contains}})
 
 
@@ -831,3 +832,11 @@ V('c03-method-reference-type', 'C03', 'C03.R1b',
   (OBJ, "        if return_type == 'reference':\n            raise ValueError(\"Method cannot have a reference return type\")\n", ""), 'enum-value')
 V('c03-qualifier-any-type', 'C03', 'C03.R1b',
   (OBJ, "        if type not in QUALIFIER_CIMTYPES:\n            raise ValueError(\n                _format(\"Invalid CIM type for a qualifier: {0}\", type))\n", "        if type not in ALL_CIMTYPES:\n            raise ValueError(\n                _format(\"Invalid CIM type for a qualifier: {0}\", type))\n", 2), 'enum-value')
+
+# ---- sibling envelope rules ------------------------------------------------------
+V('c02-handler-drift', 'C02', 'C02.R8',
+  (OPSF, "            return result_tuple\n\n        except (CIMXMLParseError, XMLParseError) as exce:", "            return result_tuple\n\n        except CIMXMLParseError as exce:", None, 3), 'sibling-drift')
+V('c19-staged-arg-dropped', 'C19', 'C19.R11',
+  (OPSF, "                method=method_name,\n                context=context,\n                MaxObjectCount=MaxObjectCount)", "                method=method_name,\n                context=context)", None, 1), 'staged-args')
+V('c19-finally-drift', 'C19', 'C19.R10',
+  (OPSF, "                self.operation_recorder_stage_result(result_tuple, exc)", "                self.operation_recorder_stage_result(result_tuple, None)", None, 2), 'sibling-drift')
